@@ -52,6 +52,9 @@ func TestMain(m *testing.M) {
 	vt.Main(m)
 }
 
+// failingFaults end a request without an accepted reply in different ways (timeout, retries used up, refusal).
+var failingFaults = []string{"drop-response", "drop-request", "stale-twice", "unsynchronized", "kiss-of-death", "wrong-source-first"}
+
 // realFault tells injected network faults from variations of a conformant server's behaviour.
 func realFault(f string) bool {
 	switch f {
@@ -168,10 +171,38 @@ func TestPropIPClient(t *testing.T) {
 				case "stale-first":
 					st := stale
 					p.Outs = func(ex *netlab.Exchange) []netlab.Out {
+						st := st
+						if ex.PrevGenuine != nil {
+							st = ex.PrevGenuine // the reply to the request just before this one, possibly of the same call
+						}
 						if st == nil {
 							return []netlab.Out{{Data: ex.Genuine}}
 						}
 						return []netlab.Out{{Data: st}, {Data: ex.Genuine}}
+					}
+				case "stale-twice": // two delayed datagrams of an earlier exchange, then the genuine reply
+					st := stale
+					p.Outs = func(ex *netlab.Exchange) []netlab.Out {
+						st := st
+						if ex.PrevGenuine != nil {
+							st = ex.PrevGenuine
+						}
+						if st == nil {
+							return []netlab.Out{{Data: ex.Genuine}}
+						}
+						return []netlab.Out{{Data: st}, {Data: st}, {Data: ex.Genuine}}
+					}
+				case "unsynchronized", "kiss-of-death": // a conformant server that cannot serve time right now says so
+					kind := f
+					p.Outs = func(ex *netlab.Exchange) []netlab.Out {
+						d := append([]byte(nil), ex.Genuine...)
+						if kind == "unsynchronized" {
+							d[0] |= 0xc0 // leap indicator 3
+						} else {
+							d[1] = 0 // stratum 0
+							copy(d[12:16], "RATE")
+						}
+						return []netlab.Out{{Data: d}}
 					}
 				case "wrong-source-first":
 					p.Outs = func(ex *netlab.Exchange) []netlab.Out {
@@ -329,10 +360,17 @@ func TestPropIPClient(t *testing.T) {
 			}
 		}
 
-		faultGen := rapid.SampledFrom([]string{"none", "none", "none", "none", "none", "none", "none", "duplicate", "stale-first", "wrong-source-first", "delayed", "drop-request", "drop-response", "duplicate", "stale-first", "wrong-source-first", "delayed", "force-basic", "snap-rx", "snap-tx", "snap-both", "snap-rx"})
+		faultGen := rapid.SampledFrom([]string{"none", "none", "none", "none", "none", "none", "none", "duplicate", "stale-first", "wrong-source-first", "delayed", "drop-request", "drop-response", "duplicate", "stale-first", "wrong-source-first", "delayed", "force-basic", "snap-rx", "snap-tx", "snap-both", "snap-rx", "stale-twice", "stale-twice", "unsynchronized", "kiss-of-death"})
 		t.Repeat(map[string]func(*rapid.T){
 			"exchange": func(t *rapid.T) {
 				fs := rapid.SliceOfN(faultGen, 3, 3).Draw(t, "faults")
+				if rapid.IntRange(0, 5).Draw(t, "scenario") == 0 {
+					// a request that ends without an accepted reply, followed at once by the late arrival of its reply
+					fs = []string{"none", rapid.SampledFrom(failingFaults).Draw(t, "failing"), rapid.SampledFrom([]string{"stale-first", "stale-twice"}).Draw(t, "late")}
+					if rapid.Bool().Draw(t, "scenario-shift") {
+						fs = []string{fs[1], fs[2], "none"}
+					}
+				}
 				call(t, fs)
 				for _, f := range fs {
 					if realFault(f) {
